@@ -51,6 +51,10 @@ func build(c *ecase, text string) *profile.Profile {
 		// a string label whose weights cancel while the numeric labels under it do not
 		{Locs: []vlib.ALoc{lf}, Vals: []int64{4, 40}, Lab: []vlib.ASLab{{K: "key", V: []string{"cancel"}}}, Num: []vlib.ANLab{{K: "bytes", V: []int64{64}, U: []string{"bytes"}}}},
 		{Locs: []vlib.ALoc{lf}, Vals: []int64{-4, -40}, Lab: []vlib.ASLab{{K: "key", V: []string{"cancel"}}}, Num: []vlib.ANLab{{K: "bytes", V: []int64{128}, U: []string{"bytes"}}}},
+		// a function that is negative overall, called from a kept one (with -drop_negative it leaves the graph)
+		{Locs: []vlib.ALoc{{Map: m, Rel: 12, Lines: []vlib.ALine{{Fn: vlib.AFn{Name: "neg", Sys: "neg", File: "n.c"}, Line: 5}}}, lf}, Vals: []int64{-2, -9}},
+		// an unsymbolized location: its node is labelled with the binary name
+		{Locs: []vlib.ALoc{{Map: m, Rel: 13}, lf}, Vals: []int64{1, 3}},
 		// a callee without a function name but with a file name, first mentioned as the callee of a heavier caller
 		{Locs: []vlib.ALoc{{Map: m, Rel: 11, Lines: []vlib.ALine{{Fn: vlib.AFn{Name: "", Sys: "", File: "e.c"}, Line: 30}}}, lf}, Vals: []int64{1, 7}},
 	}}
@@ -176,6 +180,9 @@ func one(raw json.RawMessage, c *ecase, i int) {
 	args := []string{"-dot", gran, "-flat", "-nodecount=0", "-nodefraction=0", "-edgefraction=0"}
 	if c.Opt.CallTree {
 		args = append(args, "-call_tree")
+	}
+	if i%3 == 0 {
+		args = append(args, "-drop_negative")
 	}
 	r := render(p, args...)
 	key := c.Site + "|" + strings.Join(c.Payload, "") + "|" + c.Opt.Gran + fmt.Sprint(c.Opt.CallTree)
